@@ -186,6 +186,14 @@ class GeneratePerturbationsWithDesignSpace(Contract):
         return (idx_ok(c.old.input_indices, ln(x)) + N2.wfnum(ds)
                 + [("monotone-lemma", N2.increasing_implies_distinct(d)), ("dimension", ln(x) == d.dim), ("positive-step", c.old.step > 0)])
 
+    def axioms(self, c):
+        # instances of the real-arithmetic identity t != 0 => t / t == 1 (proved: contracts/c16_centered.DivisionLemma) at the ranges of the
+        # normalised components (proof stability of bounds-used:normalized)
+        d = N2.S(c.old.self._design_space)
+        j = z3.Int("j!dl")
+        t = N2.el(d.ub, N2.el(d.ni, j)) - N2.el(d.lb, N2.el(d.ni, j))
+        return [("t != 0 => t / t == 1 at t = ub - lb of the normalised components", z3.ForAll([j], z3.Implies(t != 0, t / t == 1), patterns=[N2.el(d.ni, j)]))]
+
     def ensures(self, c):
         from pyvc.state import Undecided
 
